@@ -261,9 +261,5 @@ theorem valid_of_unquote_quote (b : Bytes) (h : unquote (quote b) = b) : validUt
 
 theorem validUtf8_iff (b : Bytes) : validUtf8 b = true ↔ unquote (quote b) = b :=
   ⟨unquote_quote_of_valid b, valid_of_unquote_quote b⟩
-#print axioms litOK_quote
-#print axioms unquote_quote_of_valid
-#print axioms valid_of_unquote_quote
-#print axioms validUtf8_iff
 
 end Wtf.History.Json
